@@ -324,6 +324,14 @@ def main():
             if job.build == 'asan' and skey.startswith('LeakSanitizer') and '/repo/' not in job.stderr_full and 'cds::' not in job.stderr_full:
                 harness_fail.append('%s: leak outside libcds: %s' % (job.label(), job.stderr_tail[-1500:]))
                 continue
+            # monitor reports printed before the process died
+            pre = re.findall(r'^@@violation prop=(\S+) key=(\S+) (.*)$', job.stderr_full, re.M)   # variant names never contain spaces
+            seen_pre = set()
+            for (vp, vkey, vtext) in pre:
+                if (vp, vkey) in seen_pre:
+                    continue
+                seen_pre.add((vp, vkey))
+                found.append((vp, vkey, vtext + ' [reported before the process died: %s]' % job.label(), None))
             found.append((prop, '%s:%s' % (skey, variant), 'process %s died (rc=%s) while running variant %s' % (job.label(), job.rc, variant),
                           {'stderr_tail': job.stderr_tail[-6000:]}))
             bs['violations'] += 1
